@@ -371,6 +371,7 @@ func classRangeRT(v headers.Range, s string, got string) string {
 func newRangeH() *H[headers.Range] {
 	return &H[headers.Range]{
 		name: "range", kindU: 40, kindM: 41, orderDep: true,
+		variants: rangeVariantGrammar.gen,
 		unmarshal: func(s string) (headers.Range, error) {
 			var h headers.Range
 			err := h.Unmarshal(base.HeaderValue{s})
